@@ -355,7 +355,7 @@ class DelayAdjustedMSTDP(IndependentCellTrainer):
                 dpre = state.batchreduce(dpre, 0) * abs(signal * scale)
 
                 # accumulate partials with mode condition
-                match (state.lr_pos * signal >= 0, state.lr_neg * signal >= 0):
+                match (bool(state.lr_pos * signal >= 0), bool(state.lr_neg * signal >= 0)):
                     case (False, False):  # depressive
                         cell.updater.weight = (None, dpost + dpre)
                     case (False, True):  # anti-hebbian
@@ -711,7 +711,7 @@ class DelayAdjustedMSTDPD(IndependentCellTrainer):
                 dpre = state.batchreduce(dpre, 0) * abs(signal * scale)
 
                 # accumulate partials with mode condition
-                match (state.lr_neg * signal < 0, state.lr_pos * signal < 0):
+                match (bool(state.lr_neg * signal < 0), bool(state.lr_pos * signal < 0)):
                     case (True, True):  # potentiative
                         cell.updater.delay = (None, dpre + dpost)
                     case (True, False):  # hebbian
